@@ -166,6 +166,8 @@ def instances(rng):
         types.SimpleNamespace(), types.SimpleNamespace(b=1, a=[1, 2]),
         Point(1, 2), Point([1], {'k': 2}), Single(1),
         functools.partial(int), functools.partial(int, '10', base=2), functools.partial(a_function, [1, 2]), functools.partial(sorted, reverse=True),
+        # keyword names that collide with parameters of the printing helpers (pretty_call(ctx, fn, ...))
+        functools.partial(a_function, fn=len), functools.partial(a_function, 1, ctx=2, fn=3), functools.partial(a_function, args=(1,), kwargs={'k': 1}, value=0),
         ValueError(), ValueError('bad', 2), KeyError('k'), OSError(2, 'No such file'),
         pathlib.PurePosixPath('a/../b/c'), pathlib.PurePosixPath('/'), pathlib.PureWindowsPath('C:/x/y'), pathlib.PurePosixPath('/very/long/' + 'segment/' * 12 + 'end'),
         pathlib.PurePosixPath('.'),
